@@ -269,6 +269,7 @@ func newInvertedIndex(family kv.Family) *invertedIndex {
 }
 
 func (ii *invertedIndex) put(key, seriesID uint32) {
+	verifhook.Yield("index.inverted.put.enter")
 	ii.lock.Lock()
 	defer ii.lock.Unlock()
 
